@@ -25,6 +25,10 @@ type netSpec struct {
 	NIn, NBias, NHid, NOut int
 	Acts                   []neatmath.NodeActivationType // per node index
 	Edges                  []netEdge
+	// OutOrder, when set, is the order of the output neurons in the outputs list handed to NewNetwork (position k holds the
+	// OutOrder[k]-th output neuron); NodeOrder the order of all neurons in the node list. Only direct builds honour them.
+	OutOrder  []int
+	NodeOrder []int
 }
 
 func (s *netSpec) total() int   { return s.NIn + s.NBias + s.NHid + s.NOut }
@@ -146,6 +150,20 @@ func (s *netSpec) build() *network.Network {
 		l.IsRecurrent = e.Back || e.RecFlag
 		l.IsTimeDelayed = e.Delayed
 	}
+	if len(s.OutOrder) == len(out) {
+		po := make([]*network.NNode, len(out))
+		for k, j := range s.OutOrder {
+			po[k] = out[j]
+		}
+		out = po
+	}
+	if len(s.NodeOrder) == len(nodes) {
+		pn := make([]*network.NNode, len(nodes))
+		for k, j := range s.NodeOrder {
+			pn[k] = nodes[j]
+		}
+		nodes = pn
+	}
 	return network.NewNetwork(in, out, nodes, 1)
 }
 
@@ -217,7 +235,15 @@ func (s *netSpec) eval(inputs []float64) (outs, vals, sums []float64) {
 		sums[v] = sum
 		vals[v] = refActivation(s.Acts[v], sum)
 	}
-	return vals[ns+s.NHid:], vals, sums
+	outs = vals[ns+s.NHid:]
+	if len(s.OutOrder) == len(outs) {
+		po := make([]float64, len(outs))
+		for k, j := range s.OutOrder {
+			po[k] = outs[j]
+		}
+		outs = po
+	}
+	return outs, vals, sums
 }
 
 func vecClose(a, b []float64, rel, abs float64) bool {
@@ -272,7 +298,8 @@ func (s *netSpec) full() map[string]interface{} {
 	for i, a := range s.Acts {
 		acts[i], _ = neatmath.NodeActivators.ActivationNameFromType(a)
 	}
-	return map[string]interface{}{"inputs": s.NIn, "bias": s.NBias, "hidden": s.NHid, "outputs": s.NOut, "edges": edges, "activations_by_node": acts}
+	return map[string]interface{}{"inputs": s.NIn, "bias": s.NBias, "hidden": s.NHid, "outputs": s.NOut, "edges": edges, "activations_by_node": acts,
+		"outputs_list_order": s.OutOrder, "node_list_order": s.NodeOrder}
 }
 
 // netModule a MIMO module laid over the nodes of a netSpec: control node with inputs and one output (the module
